@@ -215,8 +215,20 @@ func (prop) Child(b core.Batch, o *core.Obs) {
 		var xs []*lab.UDPExchange
 		var mu sync.Mutex
 		local := lab.UDPAddr("10.0.0.1", svcs[sc.Svc].Port)
+		nsend := 0
 		send := func(d dgram) {
-			x := srv.L.SendUDP(local, lab.UDPAddr(d.IP, d.Port), d.Payload)
+			ra := lab.UDPAddr(d.IP, d.Port)
+			mu.Lock()
+			nsend++
+			if sc.N%3 == 2 && nsend%2 == 0 {
+				// the same host in the other form of net.IP (4-byte instead of 16-byte): a udp4 socket and a
+				// dual-stack socket or an agent deliver one and the same source in different forms
+				if v4 := ra.IP.To4(); v4 != nil {
+					ra.IP = v4
+				}
+			}
+			mu.Unlock()
+			x := srv.L.SendUDP(local, ra, d.Payload)
 			mu.Lock()
 			xs = append(xs, x)
 			ob.Sent[d.IP]++
